@@ -78,16 +78,17 @@ type Ev struct {
 }
 
 type rec struct {
-	w    *bufio.Writer
-	enc  *json.Encoder
-	obs  map[string]bool
-	ms   *move.Store
-	n    int
-	t    int
-	max  int
-	tr   bool
-	rng  *rand.Rand
-	root string
+	w     *bufio.Writer
+	enc   *json.Encoder
+	obs   map[string]bool
+	ms    *move.Store
+	n     int
+	t     int
+	max   int
+	tr    bool
+	rng   *rand.Rand
+	root  string
+	plain bool // plain FEN output (no events)
 	// a second board from board.StartPos() that is played on between the operations of the recorded one
 	shadow *board.Board
 }
@@ -265,7 +266,23 @@ var profiles = []gen.Profile{
 	{MinPieces: 6, MaxPieces: 20, PawnBias: 70},
 }
 
+// source yields a root position; a text the engine refuses is recorded as an observation (the specification
+// decides whether it had to be accepted) and another one is drawn
 func (r *rec) source(corpus []string, rawEp bool) string {
+	for {
+		fen := r.source1(corpus, rawEp)
+		if _, err := board.FromFEN(fen); err == nil {
+			return fen
+		}
+		if bd, stm, cr, ep, hm, fm, ok := gen.ParseCanonFEN(fen); ok && !r.plain {
+			p := proj.Pos{Bd: bd, Stm: stm, Cr: cr, Ep: ep, Hm: hm, Fm: fm}
+			r.t++
+			r.emit(&Ev{Ev: "fenRejected", Fen: fen, Pos: &p})
+		}
+	}
+}
+
+func (r *rec) source1(corpus []string, rawEp bool) string {
 	if len(corpus) > 0 && r.rng.Intn(3) == 0 {
 		return corpus[r.rng.Intn(len(corpus))]
 	}
@@ -1211,6 +1228,7 @@ func main() {
 		r.enum(*enumX, *shardF, *nshardsF, *everyF)
 	case "fens":
 		// plain FEN lines (one per line) of generated valid positions and of positions along random games
+		r.plain = true
 		w.Flush()
 		for i := 0; i < *n; {
 			src := r.source(corpus, false)
